@@ -1,7 +1,109 @@
+import ElvisVerif.Model.Link
 import Driver.Common
-/-! Line-protocol handlers for C05 (sub-commands `c05` / `c05-*`). -/
+/-! Line-protocol handler for C05 (sub-command `c05`): replays taps, `send_pci` calls and the
+frames entering each network (in queue order) through `Elvis.Link` and prints who must receive
+each frame and when. -/
 namespace Driver.C05
+open Elvis.Link
 
-def dispatch (_sub : String) (_i _o : IO.FS.Stream) : Option (IO Unit) := none
+structure Pending where
+  net : Nat
+  smac : Nat
+  dst : Option Nat
+  len : Nat
+  fnv : String
+deriving BEq
+
+structure NetSt where
+  net : Net
+  med : MediumI := {}
+  /-- mac → (machine, slot) -/
+  owner : List (Nat × Nat × Nat) := []
+
+structure St where
+  nets : List NetSt := []
+  pending : List Pending := []
+
+def kv (ws : List String) (key : String) : Option String :=
+  ws.findSome? fun w => if w.startsWith (key ++ "=") then some ((w.drop (key.length + 1)).toString) else none
+
+def pair (s : String) : Option (Nat × Nat) :=
+  match s.splitOn "," with
+  | [a, b] => do pure (← a.toNat?, ← b.toNat?)
+  | _ => none
+
+def parseMac (s : String) : Option (Option Nat) :=
+  if s == "-" then some none else s.toNat?.map some
+
+def setNet (l : List NetSt) (i : Nat) (x : NetSt) : List NetSt :=
+  (List.range l.length).zip l |>.map fun (j, y) => if j = i then x else y
+
+def removeFirst (p : Pending) : List Pending → Option (List Pending)
+  | [] => none
+  | x :: xs => if x == p then some xs else (removeFirst p xs).map (x :: ·)
+
+def fmtTo (ns : NetSt) (macs : List Nat) : String :=
+  if macs.isEmpty then "-" else
+  let items := macs.map fun mac =>
+    match ns.owner.find? (·.1 == mac) with
+    | some (_, mi, slot) => s!"{mac}/m{mi}s{slot}"
+    | none => s!"{mac}/m99s99"
+  ",".intercalate (items.mergeSort (fun a b => !(b < a)))
+
+def step (st : St) (ws : List String) : St × String :=
+  match ws with
+  | ["case", id] => ({}, s!"case {id}")
+  | "cfg" :: "net" :: _ :: rest =>
+    match kv rest "mtu", (kv rest "lat").bind pair, (kv rest "thr").bind pair with
+    | some mtu, some (lb, lr), some (tb, tr) =>
+      let m := if mtu == "-" then 65535 else mtu.toNat?.getD 0
+      ({ st with nets := st.nets ++ [{ net := { mtu := m, latBase := lb, latRand := lr, thrBase := tb, thrRand := tr } }] }, "cfg")
+    | _, _, _ => (st, "bad-op")
+  | "cfg" :: _ => (st, "cfg")
+  | ["tap", n, mi, slot] =>
+    match n.toNat?, mi.toNat?, slot.toNat? with
+    | some n, some mi, some slot =>
+      match st.nets[n]? with
+      | some ns =>
+        let (net', mac) := attach ns.net
+        ({ st with nets := setNet st.nets n { ns with net := net', owner := ns.owner ++ [(mac, mi, slot)] } }, s!"mac {mac}")
+      | none => (st, "no-net")
+    | _, _, _ => (st, "bad-op")
+  | "sendpci" :: n :: rest =>
+    match n.toNat?, (kv rest "smac").bind String.toNat?, (kv rest "dst").bind parseMac, (kv rest "len").bind String.toNat?, kv rest "fnv" with
+    | some n, some smac, some dst, some len, some fnv =>
+      match st.nets[n]? with
+      | some ns =>
+        match sendPci ns.net { sender := smac, dest := dst, msg := List.replicate len 0 } with
+        | .ok _ => ({ st with pending := st.pending ++ [{ net := n, smac, dst, len, fnv }] }, "ok")
+        | .error _ => (st, "err:mtu")
+      | none => (st, "no-net")
+    | _, _, _, _, _ => (st, "bad-op")
+  | "wire" :: n :: rest =>
+    match n.toNat?, (kv rest "t").bind String.toNat?, (kv rest "smac").bind String.toNat?, (kv rest "dst").bind parseMac,
+          (kv rest "len").bind String.toNat?, kv rest "fnv", kv rest "obs" with
+    | some n, some t0, some smac, some dst, some len, some fnv, some obs =>
+      match st.nets[n]?, removeFirst { net := n, smac, dst, len, fnv } st.pending with
+      | some ns, some pending' =>
+        let (med', ti) := transmitI ns.net ns.med t0 len
+        let to := recipients ns.net dst
+        let isVar := ns.net.latRand > 0 || ns.net.thrRand > 0
+        let tpart :=
+          if to.isEmpty then "deliver=-"
+          else if isVar then
+            match obs.toNat? with
+            | some o => if ti.deliverLo ≤ o && o ≤ ti.deliverHi then "deliver=within" else s!"deliver=outside:{ti.deliverLo}:{ti.deliverHi}"
+            | none => s!"deliver=expected:{ti.deliverLo}:{ti.deliverHi}"
+          else s!"deliver={ti.deliverLo}"
+        ({ st with nets := setNet st.nets n { ns with med := med' }, pending := pending' }, s!"to={fmtTo ns to} {tpart}")
+      | some _, none => (st, "unexpected-frame")
+      | none, _ => (st, "no-net")
+    | _, _, _, _, _, _, _ => (st, "bad-op")
+  | ["end"] => (st, s!"end pending={st.pending.length}")
+  | ["crash"] => (st, "no-crash")
+  | _ => (st, "bad-op")
+
+def dispatch (sub : String) (i o : IO.FS.Stream) : Option (IO Unit) :=
+  if sub == "c05" then some (Driver.loop i o step {}) else none
 
 end Driver.C05
